@@ -170,7 +170,7 @@ func build(g *Gr, out map[string]*scheduler.Stage) (*scheduler.ExecutionGraph, e
 			st.AllowFailure = s.Allow
 		} else {
 			tk := task.FromCommands("true")
-			tk.Name = s.Name
+			tk.Name = s.ID
 			st.Task = tk
 			st.AllowFailure = s.Outcome == FailAllow
 		}
@@ -182,7 +182,7 @@ func build(g *Gr, out map[string]*scheduler.Stage) (*scheduler.ExecutionGraph, e
 		case s.CondTrue:
 			st.Condition = "true"
 		}
-		out[s.Name] = st
+		out[s.ID] = st
 		ss = append(ss, st)
 	}
 	return scheduler.NewExecutionGraph(ss...)
@@ -251,6 +251,7 @@ func execute(g *Gr, ch Chooser, p Params) (obs Obs, vs []Violation) {
 	obs.Status = map[string]int32{}
 	rec := &recording{c: ch}
 	defer func() { obs.Choices = rec.out }()
+	assignIDs(g)
 	real := map[string]*scheduler.Stage{}
 	eg, err := build(g, real)
 	if err != nil {
@@ -299,12 +300,12 @@ func execute(g *Gr, ch Chooser, p Params) (obs Obs, vs []Violation) {
 					return "C01"
 				}
 			}
-			if mm.st[o] == mCancel {
+			if mm.st[st.Name] == mCancel {
 				// started after a dependency failed: neither "finished successfully, skipped or
 				// failed with allow_failure" (C01) nor "cancelled and never run" (C02)
 				return "C01 C02"
 			}
-			if mm.st[o] == mSkip {
+			if mm.st[st.Name] == mSkip {
 				return "C02"
 			}
 		}
@@ -457,7 +458,7 @@ func execute(g *Gr, ch Chooser, p Params) (obs Obs, vs []Violation) {
 					hasDep := false
 					for _, o := range mm.g.Stages {
 						for _, d := range o.Deps {
-							if d == nm {
+							if d == st.Name {
 								hasDep = true
 							}
 						}
@@ -470,7 +471,7 @@ func execute(g *Gr, ch Chooser, p Params) (obs Obs, vs []Violation) {
 				for _, o := range mm.g.Stages {
 					has, other := false, false
 					for _, d := range o.Deps {
-						if d == nm && st.Outcome == Fail {
+						if d == st.Name && st.Outcome == Fail {
 							has = true
 						} else if mm.st[d] == mRun {
 							other = true
@@ -557,7 +558,7 @@ func execute(g *Gr, ch Chooser, p Params) (obs Obs, vs []Violation) {
 	cmp = func(mm *model) {
 		for _, st := range mm.g.Stages {
 			want := modelStatus[mm.st[st.Name]]
-			got := real[st.Name].ReadStatus()
+			got := real[st.ID].ReadStatus()
 			if got == scheduler.StatusWaiting || got == scheduler.StatusRunning {
 				fail("C03", "stage %s is left %s after Schedule returned", st.Name, statusName(got))
 			} else if got != want {
